@@ -375,7 +375,7 @@ def read_save(src, typedefs):
     body = [c for c in cands[0]["inner"] if c["kind"] == "CompoundStmt"][0]
     t = norm(rng_text(body, src))
     m = re.match(r'\{std::ofstreamofs\(fname\.c_str\(\)\);ofs<<"#"<<vfps::inovesa_version\(\)<<std::endl;'
-                 r'for\(autoit=_vm\.begin\(\);it!=_vm\.end\(\);it\+\+\)\{(.*)\}\}$', t)
+                 r'for\(autoit=_vm\.begin\(\);it!=_vm\.end\(\);(?:it\+\+|\+\+it)\)\{(.*)\}\}$', t)
     if not m:
         raise TranslateError("save(): frame (open, version comment, loop over _vm) not understood")
     t = m.group(1)
